@@ -25,7 +25,8 @@ from .c14 import STD_CURVES
 
 # pipelines whose finiteness the interval analysis cannot establish (precision of the
 # binade-wise analysis of powf near the PQ EOTF's pole); not claimed, see DESIGN.md section 5
-FINITE_NOT_CLAIMED = {'PerceptualQuantizer'}
+FINITE_NOT_CLAIMED = set()
+HOOK = [None]
 
 def pixel_dependent(e):
     return any(n.op == 'load' and X.is_float(n.ty) for n in X.walk(e)) or any(n.op == 'sym' and X.is_float(n.ty) for n in X.walk(e))
@@ -39,6 +40,8 @@ def run(tier):
         ctx = Ctx(b)
         FR.CRATE[0] = ctx.crate
         cr = ctx.crate
+        from engine import realerr
+        HOOK[0] = realerr.certified_app_hook(realerr.Helpers(Ctx(b, 'yuvxyb_math')))
         for conv in VALIDATED:
             uses_T = '{T}' in CONVERSIONS[conv][0]
             uses_t = conv in ('Rgb->LinearRgb', 'LinearRgb->Rgb', 'Yuv->LinearRgb', 'LinearRgb->Yuv', 'Yuv->Xyb', 'Xyb->Yuv', 'Rgb->Xyb', 'Xyb->Rgb')
@@ -139,16 +142,21 @@ def codes_and_finite(ck, ctx, it, results, label, conv, T, bd, t, notdec):
                 except Unsupported as ex:
                     ck.ob(f"C13/finite/{label}", 'UNDECIDED', f"kernel not resolved: {ex}"); continue
                 key = f"C13/finite/{label}"
-                if t in FINITE_NOT_CLAIMED and conv in ('Rgb->LinearRgb', 'Yuv->LinearRgb', 'Yuv->Xyb', 'Rgb->Xyb'):
-                    notdec.append(f"{conv} with {t}"); continue
                 def atom(n):
                     if X.is_float(n.ty): return (0.0, 1.0, False)
                     return None
                 worst = None
-                for c in scalars(val):
-                    r = FR.frange(c, None, atom)
-                    if r[2] or abs(r[0]) == math.inf or abs(r[1]) == math.inf:
-                        worst = r
+                FR.APP_HOOK[0] = HOOK[0]          # powf/expf ranges from their certified relative error (C18) where it applies
+                try:
+                    for c in scalars(val):
+                        r = FR.frange(c, None, atom)
+                        if r[2] or abs(r[0]) == math.inf or abs(r[1]) == math.inf:
+                            r = subdivided_range(c, atom)
+                            ck.count('subdivided')
+                        if r[2] or abs(r[0]) == math.inf or abs(r[1]) == math.inf:
+                            worst = r
+                finally:
+                    FR.APP_HOOK[0] = None
                 if worst is None:
                     ck.ob(key, 'PROVED', 'outputs finite (no NaN, no infinity) for float inputs in [0,1]^3 / every valid code')
                 else:
@@ -157,6 +165,59 @@ def codes_and_finite(ck, ctx, it, results, label, conv, T, bd, t, notdec):
                         ck.ob(key, 'REFUTED', f"a finite pixel in [0,1]^3 gives a non-finite output: input components {w[0]} -> {w[1]}")
                     else:
                         ck.ob(key, 'UNDECIDED', f"finiteness not established (range {worst})")
+
+def _bad(r):
+    return r[2] or abs(r[0]) == math.inf or abs(r[1]) == math.inf
+
+def subdivided_range(c, atom, max_depth=10):
+    """range of c where every maximal sub-expression that depends on a single float input is analysed on an
+    adaptive subdivision of that input's range (removes the dependency loss between e.g. numerator and
+    denominator of the PQ EOTF); the rest is evaluated on top of those ranges"""
+    support = {}
+    order = list(X.walk(c))                      # children before parents? establish by recursion instead
+    def sup(n):
+        r = support.get(n.id)
+        if r is None:
+            if n.op in ('load', 'sym') and X.is_float(n.ty):
+                r = frozenset([n.id])
+            else:
+                r = frozenset()
+                for a in n.args:
+                    if isinstance(a, X.E):
+                        r = r | sup(a)
+                        if len(r) > 1: break
+            support[n.id] = r
+        return r
+    atoms = {n.id: n for n in order if n.op in ('load', 'sym') and X.is_float(n.ty)}
+    cuts = {}
+    def mark(n):
+        if len(sup(n)) == 1 and n.op not in ('load', 'sym', 'const') and X.is_float(n.ty):
+            cuts[n.id] = n
+            return
+        for a in n.args:
+            if isinstance(a, X.E) and a.id not in cuts:
+                mark(a)
+    mark(c)
+    seeded = {}
+    for nid, n in cuts.items():
+        (aid,) = tuple(sup(n))
+        a = atoms[aid]
+        lo, hi, _ = atom(a)
+        budget = [400]                 # evaluations per cut: a genuinely non-finite kernel must not cost 2^depth
+        def go(l, h, depth):
+            budget[0] -= 1
+            if budget[0] < 0:
+                return FR.TOP
+            r = FR.frange(n, None, lambda m: (l, h, False) if m is a else atom(m))
+            if _bad(r) and depth < max_depth and h > l:
+                m_ = (l + h) / 2
+                r1, r2 = go(l, m_, depth + 1), go(m_, h, depth + 1)
+                return (min(r1[0], r2[0]), max(r1[1], r2[1]), r1[2] or r2[2])
+            return r
+        # start from 8 pieces
+        res = [go(lo + (hi - lo) * i / 8, lo + (hi - lo) * (i + 1) / 8, 0) for i in range(8)]
+        seeded[nid] = (min(r[0] for r in res), max(r[1] for r in res), any(r[2] for r in res))
+    return FR.frange(c, dict(seeded), atom)
 
 def geometry_witness(conds, ss):
     """small integer values satisfying all conditions plus the supported-domain assumptions"""
